@@ -180,3 +180,9 @@ pub fn init_log() {
         log::set_max_level(log::LevelFilter::Trace);
     }
 }
+
+/// An instant returned by poll_at in whole milliseconds, rounded up, kept inside what TLC's 32-bit integers (and
+/// sums with a few minutes) can hold: a deadline that far away is "never" for every world.
+pub fn ms_ceil(t: smoltcp::time::Instant) -> i64 {
+    t.total_micros().saturating_add(999).div_euclid(1000).clamp(0, 1_500_000_000)
+}
